@@ -294,8 +294,8 @@ End Items.
 (* ------------------------------------------------------------------------------------ *)
 (* Boolean checker of the certificate for concrete tables (rows) and concrete item lists *)
 Definition rule_eqb (r1 r2 : rule) : bool := if rule_eq_dec r1 r2 then true else false.
-Definition item_eqb (i1 i2 : rule * nat) : bool := rule_eqb (fst i1) (fst i2) && Nat.eqb (snd i1) (snd i2).
-Definition mem_item (i : rule * nat) (l : list (rule * nat)) : bool := existsb (item_eqb i) l.
+Definition ritem_eqb (i1 i2 : rule * nat) : bool := rule_eqb (fst i1) (fst i2) && Nat.eqb (snd i1) (snd i2).
+Definition mem_ritem (i : rule * nat) (l : list (rule * nat)) : bool := existsb (ritem_eqb i) l.
 Definition mem_rule (r : rule) (l : list rule) : bool := existsb (rule_eqb r) l.
 
 Lemma rule_eqb_eq r1 r2 : rule_eqb r1 r2 = true <-> r1 = r2.
@@ -308,9 +308,9 @@ Proof.
   - intros H. exists r. split; auto. now apply rule_eqb_eq.
 Qed.
 
-Lemma mem_item_In i l : mem_item i l = true <-> In i l.
+Lemma mem_ritem_In i l : mem_ritem i l = true <-> In i l.
 Proof.
-  unfold mem_item, item_eqb. rewrite existsb_exists. split.
+  unfold mem_ritem, ritem_eqb. rewrite existsb_exists. split.
   - intros (x & Hx & E). apply andb_true_iff in E. destruct E as (E1 & E2).
     apply rule_eqb_eq in E1. apply Nat.eqb_eq in E2. destruct i, x; simpl in *; now subst.
   - intros H. exists i. split; auto. apply andb_true_iff. split.
@@ -339,11 +339,11 @@ Section Checker.
                    match snd it with
                    | O => true
                    | S d' => match nth_error (rhs (fst it)) d' with
-                             | Some Y => symbol_eqb Y X && mem_item (fst it, d') (items_of IT q)
+                             | Some Y => symbol_eqb Y X && mem_ritem (fst it, d') (items_of IT q)
                              | None => false
                              end
                    end) (items_of IT q')
-    | (X, Reduce r) => mem_rule r G && mem_item (r, length (rhs r)) (items_of IT q)
+    | (X, Reduce r) => mem_rule r G && mem_ritem (r, length (rhs r)) (items_of IT q)
     end.
 
   Definition check_table : bool :=
@@ -380,14 +380,14 @@ Section Checker.
     intros C. constructor; simpl.
     - intros q a r H. pose proof (action_entry _ _ _ H C) as E. simpl in E.
       apply andb_true_iff in E. destruct E as (E1 & E2).
-      split. now apply mem_rule_In. now apply mem_item_In.
+      split. now apply mem_rule_In. now apply mem_ritem_In.
     - intros q X q' r d H Hin. pose proof (action_entry _ _ _ H C) as E. simpl in E.
       apply andb_true_iff in E. destruct E as (_ & E). rewrite forallb_forall in E.
       specialize (E _ Hin). simpl in E. destruct d as [|d']; auto. right.
       destruct (nth_error (rhs r) d') as [Y|] eqn:En; try discriminate.
       apply andb_true_iff in E. destruct E as (E1 & E2).
       destruct (symbol_eqb_spec Y X); try discriminate. subst Y.
-      exists d'. repeat split; auto. now apply mem_item_In.
+      exists d'. repeat split; auto. now apply mem_ritem_In.
     - intros r d Hin. unfold check_table in C. apply andb_true_iff in C. destruct C as (_ & C).
       rewrite forallb_forall in C. specialize (C _ Hin). simpl in C. now apply Nat.eqb_eq.
     - intros q X H. pose proof (action_entry _ _ _ H C) as E. simpl in E.
